@@ -171,6 +171,31 @@ def run(ctx):
     ctx.cov["oracle"]["no_content_without_354"] = {"cases": len(rscs), "failures": len(ref_bad)}
     if ref_bad:
         ctx.violation({"kind": "oracle-content-as-commands", "flavor": ref_bad[0][0]["flavor"], "what": ref_bad[0][1], "scenario": ref_bad[0][0], "failures": len(ref_bad)})
+    # ---- the peer reads so slowly that the content write runs into the timeout: the client reports an error - then the server must not have
+    #      been handed a terminated DATA phase holding part of the message
+    tmsg = (b"line of text with a dot at the start of the next\r\n.and more \r\n" * 200000)[:8 << 20]
+    tscs = []
+    # (the peer does not read at all for 1.5 / 1.2 / 1.8 x the timeout, then reads everything at once: whatever the client wrote after its
+    # timeout - a goodbye, or an end-of-data marker - arrives behind the part of the content that got through)
+    for fl, pre in (("sync", 600), ("tokio", 600), ("sync", 480), ("tokio", 480), ("sync", 720), ("tokio", 720)):
+        script = [step("none", b"220 hi\r\n"), step("line", b"250-srv\r\n250 8BITMIME\r\n"), step("line", b"250 ok\r\n"), step("line", b"250 ok\r\n"),
+                  step("line", b"354 go\r\n"), step("data", b"250 queued\r\n", pre_ms=pre), step("line", b"221 bye\r\n")]
+        tscs.append({"id": 500000 + len(tscs), "flavor": fl, "timeout_ms": 400, "server_cap_ms": 9000, "hang_ms": 40000, "servers": [script],
+                     "ops": [{"op": "connect", "hello": hx(b"c03.test")}, {"op": "send", "from": hx(b"a@x.org"), "to": [hx(b"b@y.org")], "msg": hx(tmsg)}]})
+    trunc_bad = []
+    for sc, r in zip(tscs, run_scenarios(tscs, threads=2)):
+        ctx.count()
+        srv = (r.get("servers") or [None])[0]
+        Rs = events_R(srv) if srv else []
+        res = str((r.get("results") or ["", ""])[1])
+        unit = Rs[4] if len(Rs) > 4 else None          # the DATA-phase unit exists only if the server saw an end-of-data marker
+        if unit is not None and not res.startswith("ok"):
+            got = b"\r\n".join(l[1:] if l.startswith(b".") else l for l in unit[:-5].split(b"\r\n")) + b"\r\n"
+            if got != tmsg + (b"" if tmsg.endswith(b"\r\n") else b"\r\n"):
+                trunc_bad.append((sc, "%s: the send failed (%s) but the server was handed a terminated DATA phase of %d octets that is not the %d-octet message" % (sc["flavor"], res[:60], len(unit), len(tmsg))))
+    ctx.cov["oracle"]["no_marker_after_a_failed_content_write"] = {"cases": len(tscs), "failures": len(trunc_bad)}
+    if trunc_bad:
+        ctx.violation({"kind": "oracle-truncated-message-accepted", "flavor": trunc_bad[0][0]["flavor"], "what": trunc_bad[0][1]})
     ctx.cov["oracle"]["low_level_sessions_with_refused_messages"] = {"sessions": len(low), "messages": sum(len(m[1]) for m in low), "failures": len(low_bad)}
     if low_bad:
         j, why = low_bad[0]
